@@ -90,7 +90,7 @@ def judge(prop, res, scs):
         j.result = r
         j.violations = [(key, what) for key, what in r.violations]
     if crash and not res.timed_out and last >= 0:
-        ctxs = [(j.result.qcontext if prop == "C09" else j.result.mcontext) if j.result else "plain" for j in out]
+        ctxs = [(j.result.qcrash_context if prop == "C09" else j.result.mcontext) if j.result else "plain" for j in out]
         if at_exit:
             # blame the first scenario in which a defect known to leave dangling kernel state was triggered, else the last one
             k = next((i for i, c in enumerate(ctxs) if c not in ("plain", "permanent")), last)
